@@ -832,7 +832,19 @@ class Interp:
         return d
 
     def ev_SetComp(self, e, env, fr, ctx):
-        return PySet([self.concrete_key(x, ctx) for x in self.comprehension(e.elt, e.generators, env, fr, ctx)])
+        # {elt for ...} == s = set(); for ...: s.add(elt) - through the set model's add, so that elements with a user __eq__ /
+        # __hash__ and symbolic elements are de-duplicated exactly as in the loop form
+        s = PySet([])
+        for x in self.comprehension(e.elt, e.generators, env, fr, ctx):
+            done = False
+            for mm in self.method_models:
+                r = mm(self, s, "add", [x], {}, ctx)
+                if r is not NotImplemented:
+                    done = True
+                    break
+            if not done:
+                raise Unsupported("set comprehension element")
+        return s
 
     def comprehension(self, elt, gens, env, fr, ctx):
         out = []
@@ -1239,6 +1251,8 @@ class Interp:
             if m is not None:
                 if m.is_property:
                     return self.call_function(m, [o], {}, ctx)
+                if "staticmethod" in m.decorators:
+                    return m                   # instance.static(...) passes no instance
                 return BoundMethod(m, o)
             for c in o.cls.mro():
                 if attr in c.class_attrs:
